@@ -117,7 +117,7 @@ func NewContractSet() *ContractSet {
 }
 
 var reMacroHead = regexp.MustCompile(`^([A-Za-z_][A-Za-z0-9_]*)\s*\(([^)]*)\)\s*=\s*(.*)$`)
-var reGhostFn = regexp.MustCompile(`^([A-Za-z_][A-Za-z0-9_]*)\s*\(([^)]*)\)\s*([A-Za-z_][A-Za-z0-9_.]*)$`)
+var reGhostFn = regexp.MustCompile(`^([A-Za-z_][A-Za-z0-9_]*)\s*\(([^)]*)\)\s*(\*?[A-Za-z_][A-Za-z0-9_.]*)$`)
 
 // parseParamsTyped allows Go-ish types containing brackets, e.g. "b []byte".
 func parseParamsTyped(s string) ([]QVar, error) {
